@@ -116,7 +116,8 @@ class Ctx:
         names = re.findall(r"^#print axioms\s+(\S+)", open(audit_file).read(), re.M)
         self.obligations = names
         self.checker_cmd = "cd lean && lake build SparseSpace.Properties.%s && lake env lean SparseSpace/Audit/%s.lean" % (pid, pid)
-        ok, log = self.lean_build(["SparseSpace.Properties." + pid])
+        targets = re.findall(r"^import\s+(SparseSpace\.\S+)", open(audit_file).read(), re.M) or ["SparseSpace.Properties." + pid]
+        ok, log = self.lean_build(targets)
         if not ok:
             self.proof_failures.append({"theorem": "SparseSpace.Properties." + pid, "reason": "lake build failed", "log": log[-3000:]})
             return
